@@ -82,7 +82,7 @@ type BoundedResult struct {
 	Cases                       string
 }
 
-func codecBounded(outDir string) []BoundedResult {
+func codecBounded(outDir, tier string) []BoundedResult {
 	dir := filepath.Join(outDir, "bounded")
 	os.MkdirAll(dir, 0o755)
 	tf := filepath.Join(dir, "zz_bounded_codec_test.go")
